@@ -74,6 +74,10 @@ def Exc.isKind (e : Exc) (k : EK) : Bool := e.kind == k
 
 abbrev R := Except Exc
 
+def isNone : V → Bool
+  | .none => true
+  | _ => false
+
 def raisePy {α} (k : EK) : R α := .error (.py k)
 
 /-! ### Structural equality on `V` (Python `==` restricted to identical representation).
